@@ -469,7 +469,7 @@ func (g *gen) golden() {
 		case 0:
 			return r.pick(bnd)
 		case 1:
-			return add(GP, small(int64(r.intn(1<<31))))
+			return add(GP, small(int64(r.next()%(1<<31))))
 		}
 		return r.bigBits(64)
 	}
